@@ -81,7 +81,7 @@ func vC04LiteralPattern(kind, maxLen int) {
 		b.Append([]byte{verif.Byte("q")})
 	}
 	buf := zcode.Append([]byte{30}, b.Bytes()) // type id, then the tagged record body
-	verif.Assert(bf.Eval(nil, buf) != vC04Neg, "literal-pattern-missing-from-buffer-holding-the-value")
+	verif.Assert(bf.Eval(nil, buf), "literal-pattern-missing-from-buffer-holding-the-value")
 	verif.Reach("filter")
 	verif.Reach("end")
 }
@@ -188,7 +188,7 @@ func vC04Compose(nested bool) {
 	} else {
 		pass := bf.Eval(zctx, bk.buf)
 		// the predicate is true of a record in the buffer => the buffer passes
-		verif.Assert(vC04Or(!top.truth, pass) != vC04Neg, "composed-filter-drops-matching-buffer")
+		verif.Assert(vC04Or(!top.truth, pass), "composed-filter-drops-matching-buffer")
 		verif.Reach("filter")
 		if !pass {
 			verif.Reach("filter-drops")
@@ -212,15 +212,3 @@ func VerifH_C04_O4_compose() {
 func VerifH_C04_O4_compose_nested() {
 	vC04Compose(true)
 }
-
-var vC04Neg = false
-
-// verif:desc ZNEG sanity
-// verif:bounds x
-// verif:solver z3-new
-func VerifH_C04_Zneg_O3() { vC04Neg = true; vC04LiteralPattern(vC04String, 1) }
-
-// verif:desc ZNEG sanity
-// verif:bounds x
-// verif:solver z3-new
-func VerifH_C04_Zneg_O4() { vC04Neg = true; vC04Compose(false) }
